@@ -137,6 +137,13 @@ def gen_long_coarse(R, tier):
 def gen_dotted(R, tier):
     """an all-atom fragment that holds two molecules separated by '.' (e.g. an ion pair or a stacked dimer); the
     atoms next to the dot are often aromatic"""
+    if R.chance(0.4):
+        # the atoms on both sides of the dot are aromatic (stacked rings, aromatic ion pairs)
+        a = R.choice(['c1ccccc1', 'Cc1ccccc1', 'c1ccncc1', 'Oc1ccccc1', '[O-]c1ccccc1'])
+        b = R.choice(['c1ccccc1', 'c1ccccc1C', 'c1cc[nH+]cc1', 'n1ccccc1', 'c1ccc(O)cc1'])
+        text = R.choice(['[$]%s.%s', '%s.%s[$]', '%s[$].%s', '[>]%s.%s[<]']) % (a, b)
+        return dict(input='{#F0=%s}' % text, mode='fragments', all_atom=True,
+                    features=['atomistic', 'two_molecules_in_one_fragment', 'dot_between_aromatic_atoms'])
     parts = []
     for _ in range(2):
         m, _c = molgen.gen_mol_class(R, classes=[c for c in molgen.MOL_CLASSES if c['name'] in ('aromatic', 'tiny', 'chain')])
